@@ -169,6 +169,18 @@ def step (st : St) (toks : List String) : St × String :=
       let cur := match st.s.status a with | none => [] | some l => l
       ({ st with s := { st.s with status := upd st.s.status a (some (aset cur d ⟨amt, time⟩)) } }, "ok")
     | _, _, _, _ => (st, "bad-op")
+  | ["setbal", a, dn, n] =>
+    match nat? a, nat? dn, nat? n with
+    | some a, some dn, some n =>
+      ({ st with s := { st.s with bal := fun x y => if x = a ∧ y = dn then n else st.s.bal x y } }, "ok")
+    | _, _, _ => (st, "bad-op")
+  | ["rotate", o, nw, p, fee] =>
+    match nat? o, nat? nw, nat? p, nat? fee with
+    | some o, some nw, some p, some fee =>
+      (match rotate st.s o nw p fee with
+       | some s' => ({ st with s := s' }, "ok")
+       | none => (st, "err"))
+    | _, _, _, _ => (st, "bad-op")
   | ["obs", a] =>
     match nat? a with
     | some a => (st, obs st.s a)
